@@ -160,7 +160,7 @@ func (w *world) genMutation(si int, noSnap bool) *mutation {
 	hs := ref.hs()
 	first, last, snapIdx := ref.first(), ref.last(), ref.snapIndex()
 	_ = first
-	kind := tp.Weighted([]int{10, 3, 4, w.cfg.WOverwrite, w.cfg.WCompact, w.cfg.WInstall, 1, w.cfg.WReplace, 1})
+	kind := tp.Weighted([]int{8, 3, 5, w.cfg.WOverwrite, w.cfg.WCompact, w.cfg.WInstall, 1, w.cfg.WReplace, 1})
 	if noSnap && (kind == 4 || kind == 5 || kind == 7) {
 		kind = 0
 	}
